@@ -64,6 +64,8 @@ def run(ctx):
                     res.samples.append({"body": b.path, "site": "%s/%s at %s" % (s.kind, s.ek, s.at), "break_edge": "bb%s" % s.brk,
                                         "verdict": "every feasible path from the Break edge returns Err(payload) without examining anything"})
                     break
+    import controls
+    controls.run(ctx, res, "C03", lambda crate, b, v, bs: flow.c03_rules(v, bs)[0])
     builtin_break(ctx, res)
     res.analysed.update({"switched_sites": switched, "collapsed_sites": collapsed})
     res.floor("switched report sites", switched, 20)
